@@ -102,7 +102,7 @@ class Sock:
         self.name = name; self.sent = b""; self.recv = b""; self.eof = None; self.closed_by_self = False
         self.connect_h = None; self.connect_ec = None; self.connect_t = None; self.target = None
         self.accepted_by = None; self.accept_order = None; self.read_started = False; self.connect_order = None
-        self.read_end_ctx = None; self.pending_sends = 0
+        self.read_end_ctx = None; self.pending_sends = 0; self.pending_data = {}
 
 
 def check(impl, scn):
@@ -174,7 +174,8 @@ def _check(impl, scn):
                 s = S(o)
                 # closing in reaction to the end of one's own read loop is not "closing first"
                 if not (ctx in rl_sock and rl_sock[ctx] == o): s.closed_by_self = True
-            elif m == "send" and len(op) >= 2: started_sends[op[1]] = o; S(o).pending_sends += 1
+            elif m == "send" and len(op) >= 2:
+                started_sends[op[1]] = o; S(o).pending_sends += 1; S(o).pending_data[op[1]] = send_data.get(op[1], b"")
             elif m == "read_loop": S(o).read_started = True
         elif tk[0] == "H":
             h = tk[1]; d = _kv(tk[2:]); ec = d.get("ec")
@@ -185,7 +186,7 @@ def _check(impl, scn):
                 if ec == "ok":
                     s = S(sk); s.accepted_by = a; n_acc[a] = n_acc.get(a, 0) + 1; s.accept_order = n_acc[a]
             elif h in send_data and h in started_sends:
-                s = S(started_sends[h]); s.sent += send_data[h][:int(d.get("n", 0))]; s.pending_sends -= 1
+                s = S(started_sends[h]); s.sent += send_data[h][:int(d.get("n", 0))]; s.pending_sends -= 1; s.pending_data.pop(h, None)
                 if ec != "ok": s.send_failed = True
             elif h in rl_sock:
                 s = S(rl_sock[h])
@@ -210,10 +211,18 @@ def _check(impl, scn):
             continue
         if getattr(c, "connect_stopped", False):
             fails.append(("stopped", "%s: connect started after stop() completed with success" % c.name)); continue
-        reqs, tail = split_requests(c.sent)
         alive = (c.eof is None and not c.closed_by_self)
         if alive: busy_at_end = True
         if not c.read_started: continue
+        if c.pending_sends > 0:
+            # a composed write never completed: the proxy received an unknown prefix of its data.
+            # Only what holds for every prefix is checked: whatever the client received is the
+            # beginning of a 503 response or of what some origin connection sent.
+            if c.recv and not RESP503.match(c.recv) and not any(oc.sent.startswith(c.recv) for l_ in origin_conns.values() for oc in l_) \
+                    and not any(r.startswith(c.recv) for r in (b"HTTP/1.1 503 Resource Temporarily Unavailable\r\ncontent-length: 0\r\n\r\n", b"HTTP/1.1 503 Service Temporarily Unavailable\r\ncontent-length: 0\r\n\r\n")):
+                fails.append(("relay_verbatim", "%s received %r, neither a 503 response nor bytes an origin sent" % (c.name, c.recv[:60])))
+            continue
+        reqs, tail = split_requests(c.sent)
         if not reqs:
             # nothing complete was sent: the proxy just waits
             if c.recv: fails.append(("relay_verbatim", "%s received %r without having sent a complete request" % (c.name, c.recv[:40])))
@@ -291,7 +300,10 @@ def _check(impl, scn):
         if c.eof is not None and not c.closed_by_self and oc.eof is None and not oc.closed_by_self and all_same and tail == b"":
             fails.append(("served", "%s: the proxy closed the client connection although client and origin %s were both still open and all requests were well-formed" % (c.name, ep)))
     # ----- accepts the next client until stop
-    if ended and stop_t is None and not busy_at_end:
+    # a client that closed its socket while its connect was still pending sends nothing (the simulated
+    # TCP has no RST for that): the proxy may have accepted that dead connection and be waiting on it
+    half_open = any(c.closed_by_self and c.connect_ec != "ok" for c in clients)
+    if ended and stop_t is None and not busy_at_end and not half_open:
         for c in clients:
             if c.connect_ec is None and not c.closed_by_self:
                 fails.append(("accepts_next", "%s: connect to the proxy still pending at the end although no session is in progress and stop() was not called" % c.name))
